@@ -482,6 +482,19 @@ func RunCase(c *Case) *Result {
 	default:
 		res.RetKind = "other"
 	}
+	if res.RetKind == "close" {
+		// "failed to close connection" although QUIT was answered 221: the error comes from closing the transport
+		// (inside TLS, Close writes a close_notify alert; the in-memory transport fails a write to a peer that has
+		// already closed, a real socket buffers it) - not from the dialogue.  TCP-level behaviour is not modelled.
+		for _, e := range res.Trace {
+			if e.Verb == "QUIT" {
+				if e.Code == 221 {
+					res.RetKind = "nil"
+				}
+				break
+			}
+		}
+	}
 	res.DialOK = res.RetKind != "dial"
 	for _, m := range msgs {
 		mr := MsgResult{Delivered: m.IsDelivered(), HasErr: m.HasSendError()}
